@@ -66,7 +66,7 @@ KEY = ("key",)
 UNDEF = ("undef", "undefined")
 MISSING = ("undef", "missing")
 
-KIDS = [None, True, False, 0, 2, 3.5, "", "a", "ab", "a\nb", "é", [], [2], ["a", 2], {}, {"a": 2}, {"a": "ab", "b": 3},
+KIDS = [None, True, False, 0, 1, 2, 3.5, "", "a", "ab", "a\nb", "é", [], [2], ["a", 2], {}, {"a": 2}, {"a": "ab", "b": 3},
         {"b": {"a": 2}}, [[2]], {"a": [2, "a"]}, "A", {"lim": 1}]
 
 
@@ -75,8 +75,8 @@ def docs():
     obj = {"k%d" % i: v for i, v in enumerate(KIDS)}
     obj2 = {"a": 2, "b": "a", "ab": [2], "c": {"a": 1}}
     return [
-        {"k": 2, "s": "a", "l": [2, "a", ["x"]], "o": {"a": 1, "ab": 2}, "arr": arr},
-        {"k": 2, "s": "a", "l": [2, "a", ["x"]], "o": {"a": 1, "ab": 2}, "arr": obj},
+        {"k": 2, "s": "a", "l": [2, "a", ["x"]], "o": {"a": 1, "ab": 2}, "arr": arr, "ll": [[], [2], 1, False, {}]},
+        {"k": 2, "s": "a", "l": [2, "a", ["x"]], "o": {"a": 1, "ab": 2}, "arr": obj, "ll": [[], 0, True]},
         {"k": 2, "s": "ab", "l": [], "o": {}, "arr": obj2},
         [[2, 3], {"a": 2}, "a"],
         {"a": {"a": {"a": 2}}, "b": [{"a": 3}, {"b": 4}]},
@@ -126,7 +126,12 @@ def constructs():
               ("cmp", "contains", qa(), qr(C(N("s")))), ("cmp", "in", qa(), qr(C(N("o")))), ("cmp", "contains", qr(C(N("o"))), qa()),
               ("cmp", "in", qa(C(N("a"))), ("list", [2, "ab"])), ("cmp", "contains", qa(C(N("a"))), L(2)),
               ("cmp", "in", L("b"), qa()), ("not", ("cmp", "in", qa(), ("list", [2, "a"]))),
-              ("cmp", "in", qa(), ("list", []))):
+              ("cmp", "in", qa(), ("list", [])),
+              # membership is by JSON equality: a boolean is never a number; an absent value is a member of nothing
+              ("cmp", "in", qa(), ("list", [1, 0])), ("cmp", "in", qa(), ("list", [True])), ("cmp", "contains", ("list", [False, 2.0]), qa()),
+              ("cmp", "in", qa(C(N("a"))), qr(C(N("ll")))), ("cmp", "contains", qr(C(N("ll"))), qa(C(N("nope")))),
+              ("cmp", "in", qa(C(N("nope"))), qr(C(N("ll")))), ("cmp", "in", qa(), qr(C(N("ll")))),
+              ("cmp", "in", qa(C(N("nope"))), qa()), ("cmp", "contains", qa(), qa(C(N("nope"))))):
         out.append(("membership", Q(A, C(F(e)))))
     # =~ with every subset of flags
     pats = ["a+", "A", "a.b", "^b", "\\w", "ab|a", "a", "a|ab", "a.*?", "a+?b?"]
@@ -196,6 +201,20 @@ def alias_pairs():
             out.append(("undefined", "$.arr[?%s == %s]" % (path, u), "$.arr[?!%s]" % path))
             out.append(("undefined", "$.arr[?%s != %s]" % (path, u), "$.arr[?%s]" % path))
             out.append(("undefined", "$.arr[?%s == %s]" % (u, path), "$.arr[?!%s]" % path))
+    # the word operators directly followed by a parenthesis (no blank) are operators, not function calls
+    for a_, s_ in (("$.arr[?not(@.a == 2)]", "$.arr[?!(@.a == 2)]"), ("$.arr[?@.a and(@.b)]", "$.arr[?@.a &&(@.b)]"),
+                   ("$.arr[?(@.a)or(@.b)]", "$.arr[?(@.a)||(@.b)]"), ("$.arr[?not(@.a)and(not(@.b))]", "$.arr[?!(@.a)&&(!(@.b))]"),
+                   ("$.arr[?not (@.a == 2)]", "$.arr[?! (@.a == 2)]"), ("$.arr[?(@.a)and not(@.b)]", "$.arr[?(@.a)&& !(@.b)]")):
+        out.append(("and/or/not", a_, s_))
+    # queries the typing rules refuse are refused in the alias spelling too
+    for a_, s_ in (("$.arr[?@.* <> 2]", "$.arr[?@.* != 2]"), ("$.arr[?2 <> @..a]", "$.arr[?2 != @..a]"),
+                   ("$.arr[?match(@.a, 'a') <> true]", "$.arr[?match(@.a, 'a') != true]"),
+                   ("$.arr[?search(@.a, 'a') <> false]", "$.arr[?search(@.a, 'a') != false]"),
+                   ("$.arr[?length(@.*) <> 2]", "$.arr[?length(@.*) != 2]"),
+                   ("$.arr[?@.a and length(@.a)]", "$.arr[?@.a && length(@.a)]"), ("$.arr[?not count(@.*)]", "$.arr[?!count(@.*)]"),
+                   ("$.arr[?@.a or 2]", "$.arr[?@.a || 2]"), ("$.arr[?@.* == nil]", "$.arr[?@.* == null]"),
+                   ("$.arr[?True]", "$.arr[?true]"), ("$.arr[?not none]", "$.arr[?!null]")):
+        out.append(("rejected:" + ("<>" if "<>" in a_ else "words"), a_, s_))
     out.append(("keys-shorthand", "$.o.~", "$.o[~]"))
     out.append(("keys-shorthand", "$..~", "$..[~]"))
     out.append(("in/contains", "$.arr[?@ in $.l]", "$.arr[?$.l contains @]"))
@@ -389,7 +408,28 @@ def _eval(tag, q, text, acc, only=None, record=True):
 
 def _alias(tag, alias, std, acc, record=True):
     import jsonpath
+    from jsonpath import JSONPathError
 
+    if tag.startswith("rejected:"):
+        # the standard spelling is refused at compile time (RFC 9535 typing rules): the alias is the same query
+        outcome = []
+        for text in (std, alias):
+            try:
+                jsonpath.compile(text)
+                outcome.append("accepted")
+            except JSONPathError:
+                outcome.append("rejected")
+            except Exception as e:  # noqa: BLE001
+                outcome.append("%s: %s" % (type(e).__name__, e))
+        if record:
+            acc.case("A", (alias, std, "compile"), outcome=tuple(outcome), nontrivial=True)
+            acc.count("A.rejected.some")
+        if outcome[0] != "rejected":
+            raise ValueError("C13 table: %r is expected to be refused" % std)
+        if outcome[1] != "rejected":
+            acc.violation("A", "alias-accepted", {"tag": tag, "alias": alias, "standard": std}, expected="rejected like the standard spelling",
+                          observed=outcome[1])
+        return
     try:
         pa = jsonpath.compile(alias)
         ps = jsonpath.compile(std)
@@ -424,6 +464,7 @@ def REQUIRE(tier):
         req["X.%s.none" % t] = 1
     for t in ("and/or/not", "<>", "literal", "bare-names", "rootless", "undefined"):
         req["A.%s.some" % t] = 1
+    req["A.rejected.some"] = 5
     req["F.some"] = 100
     req["P.some"] = 30
     req["P.none"] = 30
@@ -457,24 +498,7 @@ def check_case(sub, case, acc):
         except Exception as e:  # noqa: BLE001
             acc.violation("X", "exception", case, expected=exp, observed="%s: %s" % (type(e).__name__, e))
     else:
-        import jsonpath
-
-        try:
-            pa = jsonpath.compile(case["alias"])
-            ps = jsonpath.compile(case["standard"])
-        except Exception as e:  # noqa: BLE001
-            acc.violation("A", "compile-error", case, expected="both compile", observed="%s: %s" % (type(e).__name__, e))
-            return
-        for doc in ([case["doc"]] if "doc" in case else docs()):
-            try:
-                a = pa.findall(doc)
-                s_ = ps.findall(doc)
-                if not jeq_list(a, s_):
-                    acc.violation("A", "alias-differs", case, expected=s_, observed=a)
-                    return
-            except Exception as e:  # noqa: BLE001
-                acc.violation("A", "exception", case, expected=None, observed="%s: %s" % (type(e).__name__, e))
-                return
+        _alias(case["tag"], case["alias"], case["standard"], acc, record=False)
 
 
 def shrink(sub, case):
